@@ -12,6 +12,7 @@ RULE = ('case = (generated whitelist file, blacklist file, MIN_TIMESTAMP_RESOLUT
         '15-line admission model (blacklist -> whitelist -> NaN -> -1 becomes now -> floor to resolution); virtual clock '
         'for "now"; non-trivial = batch in which >=1 datapoint is filtered and >=1 admitted; distinct = (files, batch)')
 RULE_MORE = (" Lists are wired by the real createBaseService() and reloaded only by carbon's own pollers on a virtual clock; names include tagged and non-ASCII ones, list lines every kind of invalid regular expression, batches malformed lines, pickle frames the python2 style.")
+RULE_MORE = RULE_MORE + ' Round 12: list rules mixing anchored and unanchored alternatives.'
 RULE = RULE + RULE_MORE
 EXHAUSTIVE = {'quick': False, 'thorough': False}
 EXHAUSTIVE_OVER = ''
